@@ -136,7 +136,8 @@ def run(ctx: Ctx):
             names = sorted(make_pool(k0))
             for a in names:
                 for b in names:
-                    for op in (["add", "sub", "comp"] if not ctx.quick else [ctx.rng.choice(["add", "sub", "comp"])]):
+                    # quick tier: composition (the class-specific __call__ / __matmul__ shortcuts) always, one of + / -
+                    for op in (["add", "sub", "comp"] if not ctx.quick else ["comp", ctx.rng.choice(["add", "sub"])]):
                         tseed = ctx.rng.getrandbits(32)
                         key = {**k0, "tseed": tseed, "tree": [op, ["leaf", a], ["leaf", b]]}
                         pool = make_pool(key)
@@ -213,6 +214,37 @@ def run(ctx: Ctx):
             ctx.violation("stack:" + smetas[idx]["stack"], "the stacked operator is not the block matrix of its operands",
                           smetas[idx], expected="vstack / blockdiag (LinAlg/CQExpr.v)", observed="matrix differs",
                           oracle="mv_vstack / mv_blockdiag2")
+
+    # ---- (b') replicated stacks: every (input_axis, output_axis) combination, forward and adjoint matrices
+    rcases, rmetas = [], []
+    for t in range(ctx.n(16, 120)):
+        dt = ctx.rng.choice([np.float64, np.complex128])
+        k, m, n = ctx.rng.choice([2, 3]), ctx.rng.choice([1, 2, 3]), ctx.rng.choice([2, 3])
+        ia, oa = [(0, None), (1, None), (0, 1), (1, 0), (0, 0), (1, 1), (-1, 0), (0, -1)][t % 8]
+        Am = L.rand_dyadic_np(ctx.rng, (m, n), cplx=L.is_complex(dt)).astype(dt)
+        key = {"stack": "R", "A": repr(Am.tolist()), "replicates": k, "input_axis": ia, "output_axis": oa, "dtype": np.dtype(dt).name,
+               "map_type": "vmap"}
+        try:
+            S = linop.DiagonalReplicated(linop.MatrixOperator(snp.array(Am)), replicates=k, input_axis=ia, output_axis=oa,
+                                         map_type="vmap")
+            R = L.dense(S, S.input_shape, S.input_dtype)
+            Radj = L.dense(S.adj, S.output_shape, S.output_dtype)
+        except Exception as ex:
+            ctx.violation("stack:R", "building / evaluating a valid replicated stack (or its adjoint) fails", key,
+                          observed=f"{type(ex).__name__}: {str(ex)[:200]}", oracle="evaluation")
+            continue
+        ia_n = ia % 2
+        oa_n = ia_n if oa is None else oa % 2
+        rcases.append(f"({k}%nat, {m}%nat, {n}%nat, {ia_n}%nat, {oa_n}%nat, (@None Q), {L.coq_mat(Am)}, {L.coq_mat(R)}, {L.coq_mat(Radj)})")
+        rmetas.append(key)
+        ctx.count("stack:R", key)
+    if rcases:
+        body = ("Definition cases : list (nat * nat * nat * nat * nat * option Q * cmat * cmat * cmat) := " + coq_list(rcases, ";\n ") + ".\n"
+                "Eval vm_compute in (bad_idx rep_case_ok cases 0%nat).")
+        for idx in parse_eval_nat_list(coq_eval_shards("C05_rep", HEADER + "From SV Require Import LinAlg.RepStack.\n", [body])[0]):
+            ctx.violation("stack:R", "the replicated stack (or its adjoint) is not the block construction on its operand",
+                          rmetas[idx], expected="rep_mat / its conjugate transpose (LinAlg/RepStack.v)", observed="matrix differs",
+                          oracle="rep_mat_acts")
 
     # ---- (c) generic Operator algebra, freeze, Function plumbing (pointwise)
     pcases, pmetas = pointwise_cases(ctx)
